@@ -27,35 +27,9 @@ def strip(t):
     return t
 
 
-def run(ctx):
+def nonce_derivation(ctx):
+    """R-C19-2: the MAC call, its key layout, index encoding and output reduction (shared with C10: recovery is keyed by the whole seed)"""
     rep = ctx.rep
-    # ---- R-C19-1
-    for role in ('prover', 'verifier'):
-        body = wire.entry(ctx, role, 'R-C19-1')
-        if body is None:
-            continue
-        slots = wire.match_schedule(ctx, 'R-C19-1', body, role, wire.SCHEDULE + (wire.VERIFIER_TAIL if role == 'verifier' else []))
-        if slots:
-            # label -> datum: each labelled message carries the datum the released layout puts there (N = bit length, T = extension
-            # degree, M = number of commitments, ..)
-            from . import C04
-            cls = C04.event_classes(ctx, body, role)
-            for slot, evs_ in sorted(slots.items()):
-                if slot in ('domsep', 'r1', 's1', 'd1') or slot is None or slot.startswith('_'):
-                    continue
-                for e_ in evs_:
-                    c_, det_ = cls.get(id(e_), (None, ''))
-                    want = {slot} if slot != 'promise' else {'promise', 'promise-none'}
-                    rep.check(c_ in want, 'R-C19-1', 'R-C19-1/%s/datum/%s' % (role, (e_.label() or b'?').decode('latin1')),
-                              'message %r carries the %s' % (e_.label(), slot),
-                              'message %r carries %s, the released layout puts the %s there' % (e_.label(), ('the ' + c_) if c_ else ('an unrecognised datum (%s)' % det_[:80]), slot),
-                              ctx.where(e_.body, e_.bb))
-        if slots and slots.get('domsep'):
-            d = slots['domsep'][0].data()
-            rep.check(d.tag == 'const' and d[1] == wire.DOMSEP, 'R-C19-1', 'R-C19-1/%s/domain-separator' % role, 'domain separator message is %r' % wire.DOMSEP,
-                      'domain separator message is %s' % short(d, 80), ctx.where(slots['domsep'][0].body, slots['domsep'][0].bb))
-
-    # ---- R-C19-2 nonce derivation
     nb = [ctx.facts.fn[x] for x in sorted(R.nonce_fns(ctx))]
     if not nb:
         rep.anchor_missing('R-C19-2', 'R-C19-2/nonce-fn', 'no function constructs a Blake2b MAC with salt and personalisation')
@@ -145,6 +119,38 @@ def run(ctx):
             rep.check(ok, 'R-C19-2', 'R-C19-2/output', 'the nonce is from_bytes_mod_order_wide of the 64-byte MAC output', 'nonce output path calls %s' % calls, ctx.where(f))
             used = any(callee_name(t) == f.path for _, t in ctx.calls(n)) if nb else False
             rep.check(used, 'R-C19-2', 'R-C19-2/output-used', 'nonce() returns that reduction', 'nonce() does not use the wide reduction helper', ctx.where(n))
+
+
+def run(ctx):
+    rep = ctx.rep
+    # ---- R-C19-1
+    for role in ('prover', 'verifier'):
+        body = wire.entry(ctx, role, 'R-C19-1')
+        if body is None:
+            continue
+        slots = wire.match_schedule(ctx, 'R-C19-1', body, role, wire.SCHEDULE + (wire.VERIFIER_TAIL if role == 'verifier' else []))
+        if slots:
+            # label -> datum: each labelled message carries the datum the released layout puts there (N = bit length, T = extension
+            # degree, M = number of commitments, ..)
+            from . import C04
+            cls = C04.event_classes(ctx, body, role)
+            for slot, evs_ in sorted(slots.items()):
+                if slot in ('domsep', 'r1', 's1', 'd1') or slot is None or slot.startswith('_'):
+                    continue
+                for e_ in evs_:
+                    c_, det_ = cls.get(id(e_), (None, ''))
+                    want = {slot} if slot != 'promise' else {'promise', 'promise-none'}
+                    rep.check(c_ in want, 'R-C19-1', 'R-C19-1/%s/datum/%s' % (role, (e_.label() or b'?').decode('latin1')),
+                              'message %r carries the %s' % (e_.label(), slot),
+                              'message %r carries %s, the released layout puts the %s there' % (e_.label(), ('the ' + c_) if c_ else ('an unrecognised datum (%s)' % det_[:80]), slot),
+                              ctx.where(e_.body, e_.bb))
+        if slots and slots.get('domsep'):
+            d = slots['domsep'][0].data()
+            rep.check(d.tag == 'const' and d[1] == wire.DOMSEP, 'R-C19-1', 'R-C19-1/%s/domain-separator' % role, 'domain separator message is %r' % wire.DOMSEP,
+                      'domain separator message is %s' % short(d, 80), ctx.where(slots['domsep'][0].body, slots['domsep'][0].bb))
+
+    # ---- R-C19-2 nonce derivation
+    nonce_derivation(ctx)
     # labels of the five roles (prover side) and of the recoverer
     p = ctx.fn('RangeProof::<P>::prove_with_rng', 'R-C19-2')
     if p is not None:
